@@ -44,14 +44,22 @@ pub struct CaseA {
 
 fn walk_expr(e: &mut Expr, f: &mut dyn FnMut(&mut Expr)) {
     match e {
-        Expr::Lit(..) | Expr::BLit(_) | Expr::Var(_) | Expr::Nil => {}
+        Expr::Lit(..) | Expr::BLit(_) | Expr::Var(_) | Expr::Nil | Expr::FnRef(_) | Expr::CharLit(_) => {}
+        Expr::CallV(c, args) => {
+            walk_expr(c, f);
+            for a in args.iter_mut() {
+                walk_expr(a, f);
+            }
+        }
         Expr::Bin(_, _, a, b) | Expr::Cmp(_, _, a, b) | Expr::LAnd(a, b) | Expr::LOr(a, b) | Expr::Index(a, b) => {
             walk_expr(a, f);
             walk_expr(b, f);
         }
         Expr::LNot(a) | Expr::Neg(_, a) | Expr::BNot(_, a) | Expr::Cast(_, _, a) | Expr::Field(a, _) | Expr::SomeE(a)
         | Expr::Unwrap(_, a) | Expr::IsSome(_, a) | Expr::IsVariant(_, _, a) | Expr::UnwrapVariant(_, _, a) | Expr::EuLit(_, a)
-        | Expr::EuIsOk(_, a) | Expr::EuUnwrap(_, _, a) | Expr::Try(a) | Expr::Coerce(_, a) => walk_expr(a, f),
+        | Expr::EuIsOk(_, a) | Expr::EuUnwrap(_, _, a) | Expr::Try(a) | Expr::Coerce(_, a) | Expr::Deref(a) | Expr::Len(a)
+        | Expr::SliceToArr(_, _, a) => walk_expr(a, f),
+        Expr::AddrOf(_, p) | Expr::SliceOf(p) => walk_place(p, f),
         Expr::VariantLit(_, _, pl) => {
             if let Some(a) = pl {
                 walk_expr(a, f);
@@ -79,6 +87,7 @@ fn walk_place(p: &mut Place, f: &mut dyn FnMut(&mut Expr)) {
             walk_expr(i, f);
         }
         Place::Field(q, _) => walk_place(q, f),
+        Place::Deref(e) => walk_expr(e, f),
     }
 }
 
@@ -147,6 +156,9 @@ fn value_of(t: &Ty, structs: &[core::StructDef], enums: &[core::EnumDef], rng: &
             let ok = rng.chance(2, 3);
             Expr::EuLit(ok, Box::new(value_of(if ok { o } else { e }, structs, enums, rng)))
         }
+        // C16's generator runs with `pointers: false`: no closed value of these types exists
+        Ty::Ptr(..) | Ty::Slice(_) | Ty::FnPtr(..) => Expr::Nil,
+        Ty::Char => Expr::CharLit(b'a'),
     }
 }
 
@@ -158,7 +170,7 @@ fn comptime_value(t: &Ty, rng: &mut Rng) -> i128 {
 }
 
 pub fn gen_case_a(rng: &mut Rng) -> Option<CaseA> {
-    let cfg = core::GenCfg { max_fns: 4, max_stmts: 8, max_depth: 3, faults: false };
+    let cfg = core::GenCfg { max_fns: 4, max_stmts: 8, max_depth: 3, faults: false, pointers: false, recursion: false, chars: false };
     let mut p = core::gen_program(rng, &cfg);
     if p.fns.len() < 2 {
         return None;
@@ -304,7 +316,7 @@ fn monomorphise(p: &core::Program, cpos: &[Vec<usize>]) -> Option<(core::Program
     for (k, _) in order.iter().filter(|(k, _)| !cpos[*k].is_empty()) {
         *per.entry(*k).or_insert(0) += 1;
     }
-    Some((core::Program { structs: p.structs.clone(), enums: p.enums.clone(), fns: out }, generic_instances, per.values().copied().max().unwrap_or(0)))
+    Some((core::Program { structs: p.structs.clone(), enums: p.enums.clone(), fns: out, slice_oob: false }, generic_instances, per.values().copied().max().unwrap_or(0)))
 }
 
 /// Capy source of the generic program: `comptime` in the headers, comptime arguments spelled as
